@@ -58,19 +58,20 @@ func (SchedEngine) Decode(raw json.RawMessage) (any, error) {
 }
 
 func (SchedEngine) Gen(prop, tier string, seed uint64, yield func(c any) bool) {
-	n := 160
+	n := 256
 	if tier == "thorough" {
-		n = 12000
+		n = 20000
 	}
 	rng := core.NewRng(core.SubSeed(seed, "sched", tier))
-	scen := []string{"A", "B", "C", "E", "A", "B", "C", "E", "D"}
+	scen := []string{"A", "B", "C", "E", "A", "B", "C", "E", "D", "A", "B", "C"}
 	for i := 0; i < n; i++ {
-		c := SchedCase{Scenario: scen[i%len(scen)], Seed: rng.U64(), Workers: rng.Range(2, 3), OpsPer: rng.Range(1, 2), KeepBias: core.Pick(rng, []int{800, 950, 990, 997})}
+		c := SchedCase{Scenario: scen[i%len(scen)], Seed: rng.U64(), Workers: rng.Range(2, 3), OpsPer: rng.Range(1, 2), KeepBias: core.Pick(rng, []int{500, 650, 800, 950, 990, 997})}
 		if rng.Chance(1, 6) {
 			c.Workers = 4
 			c.OpsPer = 1
 		}
-		c.PoolKind = []string{"generic", "combined", "signeddata"}[(i/9)%3]
+		// the combined pool (the type of the built-in trust store) gets half of the runs
+		c.PoolKind = []string{"combined", "generic", "combined", "signeddata"}[(i/len(scen))%4]
 		if !yield(c) {
 			return
 		}
@@ -236,6 +237,9 @@ func buildEnv(c SchedCase) *schedEnv {
 	env := &schedEnv{}
 	rng := core.NewRng(core.SubSeed(c.Seed, "script"))
 	nOps := c.Workers * c.OpsPer
+	if c.Scenario == "E" {
+		nOps = c.Workers * (c.OpsPer + 2) // pool calls are cheap: longer scripts, so that later calls see what earlier overlaps left behind
+	}
 	orand := newOpRand(c.Seed, nOps+1)
 	term.SetTerminalRandom(orand)
 	addOp := func(name string, guard func() bool, call func() string) *sched.Op {
@@ -246,7 +250,13 @@ func buildEnv(c SchedCase) *schedEnv {
 	chal := func(i int) []byte { return core.NewRng(core.SubSeed(c.Seed, "chal", i)).Bytes(8) }
 	switch c.Scenario {
 	case "A":
-		w := world.Build(worldA(c.Seed))
+		specA := worldA(c.Seed)
+		targeted := rng.Chance(3, 4)
+		if targeted {
+			// a longer read (several chunks per image file), so that calls of other workers fall between its steps
+			specA.DG2Size, specA.DG7Size = 8000, 300
+		}
+		w := world.Build(specA)
 		ch := w.NewChip()
 		link := term.NewLink(ch, nil, nil)
 		link.Hook = func(int) { schedYield("transceive") }
@@ -263,20 +273,35 @@ func buildEnv(c SchedCase) *schedEnv {
 			if i == 0 && rng.Chance(2, 3) {
 				k = 0 // ops are dealt round-robin: worker 0 usually opens with a read that the others' calls fall into
 			}
+			if targeted {
+				// worker 0 reads; the other workers issue configuration calls (mostly eagerly, i.e. while the read runs)
+				switch {
+				case i%c.Workers == 0:
+					k = 0
+				case rng.Chance(5, 6):
+					k = 2 + rng.Intn(3)/2 // SkipImages twice as often as SkipPace: it is consulted once per data group
+				}
+			}
 			idx := i
 			// configuration calls may be started while a read holds the reader (they must then wait their turn)
-			eager := rng.Chance(2, 3)
+			eager := rng.Chance(2, 3) || (targeted && rng.Chance(2, 3))
+			delay := 0
+			if targeted && rng.Chance(9, 10) {
+				delay = rng.Intn(1400) // somewhere inside (or just after) worker 0's read, which takes about 1300 yield points here
+			}
 			switch k {
 			case 0, 1:
 				haveRead = true
 				addOp("ReadDocument", guard, func() string {
 					d, _, err := rd.ReadDocument(pass, nil, nil)
 					return fpDoc(d, err)
-				})
+				}).Eager = i > 0 && rng.Chance(1, 2) // a second read may be started while the first holds the reader
 			case 2:
-				addOp("SkipImages", guard, func() string { rd.SkipImages(); return "" }).Eager = eager
+				op := addOp("SkipImages", guard, func() string { rd.SkipImages(); return "" })
+				op.Eager, op.NotBefore = eager, delay
 			case 3:
-				addOp("SkipPace", guard, func() string { rd.SkipPace(); return "" }).Eager = eager
+				op := addOp("SkipPace", guard, func() string { rd.SkipPace(); return "" })
+				op.Eager, op.NotBefore = eager, delay
 			case 4:
 				addOp("WithAAChallenge", guard, func() string {
 					_, err := rd.WithAAChallenge(chal(idx))
@@ -338,7 +363,7 @@ func buildEnv(c SchedCase) *schedEnv {
 					addOp("Verify", guard, func() string {
 						d, err := v.Verify(b)
 						return fpDoc(d, err)
-					})
+					}).Eager = i > 0 && rng.Chance(1, 2)
 				} else {
 					addOp("WithAAChallenge", guard, func() string {
 						_, err := v.WithAAChallenge(chal(idx))
@@ -417,7 +442,11 @@ func buildEnv(c SchedCase) *schedEnv {
 		}
 		for i := 0; i < nOps; i++ {
 			j := rng.Intn(len(sods))
-			switch rng.Intn(5) {
+			k := rng.Intn(5)
+			if c.PoolKind == "combined" && rng.Chance(1, 3) {
+				k = 3 // country look-ups across the member pools: the operation the built-in trust store serves most
+			}
+			switch k {
 			case 0, 1:
 				addOp("SignedData.Verify(shared pool)", nil, func() string {
 					chain, err := sods[j].SD.Verify(shared)
@@ -650,6 +679,12 @@ func (SchedEngine) Run(prop string, ci any) *core.Outcome {
 			hist = append(hist, porcupine.Operation{ClientId: cl.Worker, Input: cl.Op.ID, Call: int64(cl.Invoke), Output: cl.Output, Return: int64(cl.Return)})
 		}
 		res := porcupine.CheckOperationsTimeout(model, hist, 60*time.Second)
+		if os.Getenv("VERIF_C20_DEBUG") != "" {
+			for _, cl := range s.Calls {
+				fmt.Fprintf(os.Stderr, "DBG %s w%d:%s#%d[%d,%d]=%s eager=%v nb=%d\n", out.Fingerprint[:8], cl.Worker, cl.Op.Name, cl.Op.ID, cl.Invoke, cl.Return, cl.Output, cl.Op.Eager, cl.Op.NotBefore)
+			}
+			fmt.Fprintf(os.Stderr, "DBG %s result=%v memo=%v yields=%d\n", out.Fingerprint[:8], res, memo, s.Yields)
+		}
 		switch res {
 		case porcupine.Illegal:
 			var desc []string
